@@ -232,7 +232,27 @@ def rule_e(chk, prog):
                 else:
                     chk.violation("C19.e", where, norm(a)[:80], "the mask excludes the observation's own date: on that day the previous observation's depth is still "
                                   "used, the daily depth does not follow the configured observations", loc=fi.loc(a))
-    chk.floor("C19.e-masks", nmask, 2, "date masks applying a held-constant observation")
+    # ... or, written with pandas: forward fill on the simulation days - then the days before the first observation need a backward fill
+    nff = 0
+    for c in walk_no_nested(fi.node):
+        if isinstance(c, ast.Call) and isinstance(c.func, ast.Attribute) and c.func.attr in ("reindex", "ffill", "fillna", "asfreq") \
+                and (c.func.attr == "ffill" or any(k.arg == "method" and isinstance(k.value, ast.Constant) and k.value.value in ("ffill", "pad") for k in c.keywords)):
+            nff += 1
+            n += 1
+            # the same chain or a later statement back-fills
+            later = [x for x in walk_no_nested(fi.node) if isinstance(x, ast.Call) and isinstance(x.func, ast.Attribute)
+                     and (x.func.attr == "bfill" or (x.func.attr in ("fillna", "interpolate") and any(
+                         (k.arg == "method" and isinstance(k.value, ast.Constant) and k.value.value in ("bfill", "backfill"))
+                         or (k.arg == "limit_direction" and isinstance(k.value, ast.Constant) and k.value.value in ("both", "backward")) for k in x.keywords)))
+                     and getattr(x, "lineno", 0) >= c.lineno and any(sub is c for sub in ast.walk(x)) or
+                     (isinstance(x, ast.Call) and isinstance(x.func, ast.Attribute) and x.func.attr == "bfill" and getattr(x, "lineno", 0) > c.lineno)]
+            if later:
+                chk.ok("C19.e", where, norm(c)[:80], "forward fill followed by a backward fill: every simulation day has a depth")
+            else:
+                chk.violation("C19.e", where, norm(c)[:80], "held-constant observations are forward-filled only: the days before the first observation get no "
+                              "depth (NaN) - the first step then fails (or runs on NaN)", loc=fi.loc(c))
+    if nmask + nff == 0:
+        chk.error("C19.e: the held-constant construction (date masks or a forward fill on the simulation days) was not found")
     chk.floor("C19.e", n, 3, "constructions of the daily water-table series")
 
 
@@ -325,6 +345,8 @@ def run(chk, prog, tier):
     rule_e(chk, prog)
     from ._siblings import adjusted_fc_agreement
     adjusted_fc_agreement(chk, prog, "C19.f")
+    from ._siblings import wt_in_soil_agreement
+    wt_in_soil_agreement(chk, prog, "C19.f")
     chk.assume("A-1")
     chk.assume("A-10")
     chk.exhaustive = True
